@@ -26,6 +26,8 @@ pub struct TableSnapshot {
     pub nodes: Vec<(Id, SocketAddrV4, Duration)>,
     /// (bucket distance, ids in bucket order)
     pub buckets: Vec<(u8, Vec<Id>)>,
+    /// (id, address) read bucket by bucket (not through the table iterator)
+    pub bucket_nodes: Vec<(Id, SocketAddrV4)>,
     /// dht_size_estimates_count, dht_size_estimates_sum, responders_samples_count,
     /// responders_size_estimates_sum, responders_subnets_sum
     pub stats: (usize, f64, usize, f64, usize),
@@ -43,6 +45,11 @@ impl TableSnapshot {
                 .buckets()
                 .iter()
                 .map(|(d, b)| (*d, b.iter().map(|n| *n.id()).collect()))
+                .collect(),
+            bucket_nodes: table
+                .buckets()
+                .iter()
+                .flat_map(|(_, b)| b.iter().map(|n| (*n.id(), n.address())))
                 .collect(),
             stats: table.verif_stats(),
         }
